@@ -10,7 +10,7 @@ new_loop=["    // Carry on with the remaining sources after one of them fails (a
 "    // cp does); the outcome is reported once every source was tried.",
 "    let mut result = Ok(());",
 "    for source in sources {",
-"        result = walk_source(source, dest, config, &work_tx, &stats, &mut produced, &mut written, &mut replaced, &mut backup_named, &mut through_links, &mut spelled);",
+"        result = walk_source(source, dest, config, &work_tx, &stats, &mut produced, &mut written, &mut replaced, &mut backup_named, &mut through_links, &mut spelled, &mut read);",
 "        if let Err(e) = &result {",
 "            error!(\"{}\", e);",
 "        }",
@@ -28,6 +28,7 @@ func=["",
 "    backup_named: &mut HashSet<PathBuf>,",
 "    through_links: &mut HashSet<PathBuf>,",
 "    spelled: &mut HashSet<PathBuf>,",
+"    read: &mut HashMap<(u64, u64), PathBuf>,",
 ") -> Result<()> {"]+ded+["    Ok(())","}"]
 rest=L[end+1:]
 ri=next(i for i,l in enumerate(rest) if l=="    Ok(())")
